@@ -713,6 +713,11 @@ def setter_completeness(ctx: Ctx, rep: Report, rid: str = "R01.7", platforms=("i
             continue
         n += 1
         symenv = {"self._platform": plat, "self.platform": plat}
+        from .normalise import normalised as _nrm
+
+        # a table of (detector, setter) pairs walked by a loop is the if-chain it stands for: each row is a path of its
+        # own (through the indirect call all rows would look alike, and a row that forgets an attribute would hide)
+        st = _nrm(ctx, st, "unroll,beta")
         cfg = ctx.cfg(st)
         per_path = []
         for p in function_paths(cfg):
